@@ -55,6 +55,9 @@ def make_dataset(conv, shape, variant):
             'edgedim': dict(with_edges=True),
             'edgeimplied': dict(supply=('edge_node',), edge_dimension_attr=False),
             'edgeboth': dict(supply=('edge_node', 'face_edge'), start_index=1, fill='attr'),
+            # connectivity stored with the element dimension last: the *_dimension attributes name the grids
+            'edgeT': dict(supply=('edge_node',), transposed=True),
+            'edgefaceT': dict(supply=('edge_face',), transposed=True, fill='attr'),
         }[mode]
         ds = builders.ugrid(mesh, **kw)
         nodes, faces = builders.MESHES[mesh]
@@ -180,6 +183,9 @@ def cases(tier):
         configs.append(('ugrid', mesh, 'edgeimplied', ['face', 'node', 'edge']))
         if mesh not in ('tri', 'qqq', 'fan'):
             configs.append(('ugrid', mesh, 'edgeboth', ['face', 'node', 'edge']))
+        configs.append(('ugrid', mesh, 'edgeT', ['face', 'node', 'edge']))
+        if mesh != 'tri':
+            configs.append(('ugrid', mesh, 'edgefaceT', ['face', 'node', 'edge']))
     for conv, shp, variant, kinds in configs:
         for kind in kinds:
             for part in ('meta', 'wind', 'ravel'):
